@@ -13,7 +13,7 @@ RULE = ('regions: Cartesian {2x2 full, 3x2 with a hole, 1x3 column, 2x2 with a f
         'mixed-depth keys 0,10,11,12,13,2,3}; magnitude grids {[5,6,7], 4.95+0.1k (5 edges), single edge [5.0]}, each bound to '
         'the region and passed explicitly; event alphabet = 7 positions (cell centres, a cell corner, a shared edge, a hole or '
         'flagged cell, outside on two sides / beyond the Mercator latitude limit and at lon=180) x 5 magnitudes (below the first '
-        'edge, exactly on an inner edge, mid-bin, above the top edge, one ulp below the first edge) = 35 letters; catalogs = ALL multisets of size 0..3 (quick: size 3 for two of the six magnitude configurations) '
+        'edge, exactly on an inner edge, mid-bin, above the top edge, one ulp below the first edge) = 35 letters; catalogs = ALL multisets of size 0..3 (quick: size 3 for one of the six magnitude configurations); histories (gridding on the same cells in reverse order then re-binding the region; filter preview then in-place) on every catalog of size <= 2 '
         '(thorough 0..4) in sorted, reversed and rotated order (thorough: all permutations up to size 3). A catalog is '
         'non-trivial iff it has a repeated letter, an event outside the region or below the lowest edge, or an event on an '
         'edge; distinct by construction.')
@@ -83,7 +83,7 @@ def cases(tier, seed):
         for grid in MAG_GRIDS:
             for bound in (True, False):
                 for size in range(0, mx + 1):
-                    if tier == 'quick' and size == 3 and (grid, bound) not in (('m567', True), ('m495', False)):
+                    if tier == 'quick' and size == 3 and (grid, bound) != ('m567', True):
                         continue
                     yield dict(kind='block', region=rname, grid=grid, bound=bound, size=size, zone=(tier == 'thorough' or size <= 2),
                                perms=('all' if tier == 'thorough' and size <= 3 else 'three'))
@@ -115,12 +115,16 @@ def ref_bin(edges, m):
     return k
 
 
-def build_region(rname, mags):
+def build_region(rname, mags, reverse=False):
     if rname.startswith('cart'):
         reg = cart_regions()[rname]
-        return fixtures.cartesian_region(reg['cells'], DH, magnitudes=mags, mask=reg['flags'])
+        cells, flags = list(reg['cells']), reg['flags']
+        if reverse:
+            cells, flags = cells[::-1], (None if flags is None else flags[::-1])
+        return fixtures.cartesian_region(cells, DH, magnitudes=mags, mask=flags)
     from csep.core.regions import QuadtreeGrid2D
-    r = QuadtreeGrid2D.from_quadkeys(list(QUAD[rname]), magnitudes=None if mags is None else numpy.array(mags))
+    keys = list(QUAD[rname])[::-1] if reverse else list(QUAD[rname])
+    r = QuadtreeGrid2D.from_quadkeys(keys, magnitudes=None if mags is None else numpy.array(mags))
     if mags is None:
         r.magnitudes = None
     return r
@@ -142,7 +146,7 @@ def orders(seq, mode):
     return uniq
 
 
-def judge_catalog(rname, grid, bound, letters, pos, mags, edges, failures, hsh):
+def judge_catalog(rname, grid, bound, letters, pos, mags, edges, failures, hsh, hist=True):
     """letters: list of (pos index, mag index). Returns evals."""
     quad = not rname.startswith('cart')
     reg = build_region(rname, edges if bound else None)
@@ -229,19 +233,46 @@ def judge_catalog(rname, grid, bound, letters, pos, mags, edges, failures, hsh):
     except Exception as e:
         evals += 1
         fail('magnitude_counts', type(e).__name__, f'{type(e).__name__}: {e}')
-    # E. equivalent magnitude-range filters
+    # E. equivalent magnitude-range filters (fresh catalog, and the history preview with in_place=False then apply in place)
     if mc is not None and len(evs) > 0:
         for k in range(nb):
             st = [f'magnitude >= {edges[k]!r}'] + ([f'magnitude < {edges[k + 1]!r}'] if k + 1 < nb else [])
             try:
                 kept = cat().filter(st, in_place=False).event_count
-                evals += 1
+                kept2 = int(mc[k])
+                if hist:
+                    hc = cat()
+                    hc.filter(st, in_place=False)
+                    hc.filter(st, in_place=True)
+                    kept2 = hc.event_count
+                evals += 2 if hist else 1
                 if kept != int(mc[k]):
                     fail('magnitude_counts', 'differs-from-equivalent-range-filter', f'bin {k}: count {mc[k]}, filter {st} keeps {kept}')
+                    break
+                if kept2 != int(mc[k]):
+                    fail('filter', 'in-place-filter-after-a-preview-keeps-other-events', f'bin {k}: count {mc[k]}; filter({st}, in_place=False) then filter(same, in_place=True) keeps {kept2}')
                     break
             except Exception as e:
                 fail('filter', type(e).__name__, f'{type(e).__name__}: {e}')
                 break
+    # G. history: the same catalog object gridded on another region (same cells stored in reverse order), then re-bound
+    if hist and all_in and all_mag and len(evs) > 0:
+        try:
+            hc = fixtures.catalog(evs, region=build_region(rname, edges if bound else None, reverse=True))
+            for call in (lambda: hc.spatial_counts(), lambda: hc.spatial_magnitude_counts(**kw), lambda: hc.spatial_event_probability()):
+                try:
+                    call()
+                except Exception:
+                    pass
+            hc.region = reg
+            g_sp = numpy.asarray(hc.spatial_counts(), dtype=float)
+            g_sm = numpy.asarray(hc.spatial_magnitude_counts(**kw), dtype=float)
+            evals += 2
+            if not (numpy.array_equal(g_sp, want_sp) and numpy.array_equal(g_sm, want)):
+                fail('spatial_counts', 'stale-after-rebinding-the-catalog-to-another-region',
+                     f'gridded on the same cells stored in reverse order, then catalog.region = this region: spatial {g_sp.tolist()} expected {want_sp.tolist()}; space-magnitude {g_sm.tolist()} expected {want.tolist()}')
+        except Exception as e:
+            fail('spatial_counts', f'{type(e).__name__}-after-rebinding', f'{type(e).__name__}: {e}')
     # F. marginal identities
     if sm is not None and all_in and all_mag:
         if sm.sum() != len(evs):
@@ -328,8 +359,8 @@ def run_case(case):
             letters = [l for l in letters if l[1] != 4]      # quick tier: the tolerance-zone letter only in catalogs of <= 2 events
         cats = [list(ms) for ms in itertools.combinations_with_replacement(letters, case['size'])]
     for ms in cats:
-        for seq in orders(ms, perms):
-            evals += judge_catalog(rname, grid, bound, seq, pos, mags, edges, failures, hsh)
+        for oi, seq in enumerate(orders(ms, perms)):
+            evals += judge_catalog(rname, grid, bound, seq, pos, mags, edges, failures, hsh, hist=(oi == 0 and len(seq) <= 2) or case['kind'] == 'single')
             states += 1
         if len(set(ms)) < len(ms) or any(ref_cell(rname, *pos[p]) is None for p, m in ms) or any(m in (0, 1, 4) for p, m in ms):
             nontriv += 1
